@@ -128,7 +128,9 @@ class JobResult:
             if len(self.samples) < 12:
                 self.samples.append(s)
         for k, v in other.extra.items():
-            if isinstance(v, (int, float)):
+            if k.endswith("_max") or k.startswith("bfs_max"):
+                self.extra[k] = max(self.extra.get(k, 0), v)
+            elif isinstance(v, (int, float)):
                 self.extra[k] = self.extra.get(k, 0) + v
             else:
                 self.extra.setdefault(k, v)
